@@ -199,6 +199,10 @@ func genSysHistory(rng *proto.Rng) sysIn {
 			}
 		}
 		run.InvAlt = rng.Chance(1, 8)
+		if rng.Chance(1, 12) {
+			// no REST client can be built for one kind: its objects fail at apply time, before any filter (prune uses another client)
+			run.FailInfo = []string{proto.Pick(rng, []string{"ConfigMap", "Secret", "Namespace", "ClusterRole"})}
+		}
 		if len(run.FailMut)+len(run.FailGet)+len(run.FailInvRead) > 0 {
 			run.FailCode = proto.Pick(rng, []int{0, 0, 403, 422, 409, 4091})
 		}
@@ -320,6 +324,9 @@ func sysHandWritten() []sysIn {
 		{Pre: pre, Runs: []sysRun{{Kind: "apply", Objs: []sysObj{soA, soB}}, {Kind: "destroy", FailMut: []int{0}, FailCode: 4091,
 			Del: map[string]string{idKey(soB.ID): "replaced"}, Opts: sysOpts{Timeout: true}}, {Kind: "destroy", Opts: sysOpts{Timeout: true}}}},
 		{Pre: pre, Runs: []sysRun{{Kind: "apply", Objs: []sysObj{soA, soB}}, {Kind: "apply", Objs: []sysObj{}, Del: map[string]string{idKey(soB.ID): "replaced", idKey(soA.ID): "replaced"}, Opts: sysOpts{Timeout: true}}}},
+		// no REST client for Secrets in one run: they fail at apply time, everything else goes on; the next run applies them
+		{Pre: pre, Runs: []sysRun{{Kind: "apply", Objs: []sysObj{soA, soK, soS}, FailInfo: []string{"Secret"}}, {Kind: "apply", Objs: []sysObj{soA, soK, soS}},
+			{Kind: "apply", Objs: []sysObj{soA, soB}, FailInfo: []string{"ConfigMap"}, Opts: sysOpts{Timeout: true}}, {Kind: "destroy", FailInfo: []string{"ConfigMap"}}}},
 		// ids the inventory cannot store
 		{Pre: pre, Runs: []sysRun{{Kind: "apply", Objs: []sysObj{soA, {ID: jid{"ns1", "a_b", "", "ConfigMap"}}}}, {Kind: "apply", Objs: []sysObj{soA}},
 			{Kind: "apply", Objs: []sysObj{soA, {ID: jid{"", "x__y", "rbac.authorization.k8s.io", "ClusterRole"}}}, Opts: sysOpts{StatusAll: true}}, {Kind: "destroy"}}},
